@@ -69,7 +69,7 @@ Proof.
       * intros H. apply andb_prop in H as [H H5]. apply andb_prop in H as [H H4]. apply andb_prop in H as [H H3].
         apply andb_prop in H as [H1 H2]. apply negb_true_iff in H1, H2, H3.
         apply lex_punct_tpl_xgo; assumption.
-  - intros H. apply negb_true_iff in H. unfold is_blank_rune in H. cbn [skip_ws]. rewrite H. reflexivity.
+  - intros _. reflexivity.
 Qed.
 
 Lemma scan_all_tpl_xgo cm fuel st acc :
